@@ -115,6 +115,53 @@ class Models:
         return None
 
     # ------------------------------------------------------------------ floats
+    @staticmethod
+    def fdown(x):
+        import math
+        return math.nextafter(x, -math.inf)
+
+    @staticmethod
+    def fup(x):
+        import math
+        return math.nextafter(x, math.inf)
+
+    def int_to_float_rng(self, lo, hi):
+        """outward-rounded float bounds of an integer interval"""
+        import math
+        try:
+            fl, fh = float(lo), float(hi)
+        except OverflowError:
+            return None
+        if fl > lo:
+            fl = self.fdown(fl)
+        if fh < hi:
+            fh = self.fup(fh)
+        return (fl, fh)
+
+    def float_rng_binop(self, name, a, b):
+        import math
+        if a.rng is None or b.rng is None:
+            return None
+        (al, ah), (bl, bh) = a.rng, b.rng
+        try:
+            if name == 'mul':
+                c = [al * bl, al * bh, ah * bl, ah * bh]
+            elif name == 'div':
+                if bl <= 0.0 <= bh:
+                    return None
+                c = [al / bl, al / bh, ah / bl, ah / bh]
+            elif name == 'add':
+                c = [al + bl, ah + bh]
+            elif name == 'sub':
+                c = [al - bh, ah - bl]
+            else:
+                return None
+        except (OverflowError, ZeroDivisionError):
+            return None
+        if any(math.isnan(x) or math.isinf(x) for x in c):
+            return None
+        return (self.fdown(min(c)), self.fup(max(c)))
+
     def float_binop(self, I, st, op, a, b):
         if op in ('Eq', 'Ne', 'Lt', 'Le', 'Gt', 'Ge'):
             return VBool(None, ('fcmp', op.lower(), a, b))
@@ -144,7 +191,11 @@ class Models:
                 cls |= {'inf', 'nan'}
             if 'fin' in a.cls and 'fin' in b.cls:
                 cls |= {'fin', 'inf'}
-        return VFloat(frozenset(cls), (name, a.expr, b.expr))
+        r = self.float_rng_binop(name, a, b)
+        if r is not None and a.cls == frozenset(('fin',)) and b.cls == frozenset(('fin',)):
+            # both operands finite and the (outward rounded) result interval is finite: no overflow, no NaN
+            cls = {'fin'}
+        return VFloat(frozenset(cls), (name, a.expr, b.expr), r)
 
     def assume_fcls(self, I, st, pred, truth):
         _, loc, fv, c = pred
@@ -310,7 +361,7 @@ class Models:
 
         @reg('core::num::<impl u8>::is_ascii_whitespace')
         def is_ws(c):
-            return VBool(None)
+            return c.I.unknown_bool()
 
         @reg('core::num::<impl u8>::eq_ignore_ascii_case')
         def u8_eqic(c):
@@ -328,7 +379,7 @@ class Models:
                     q = ('cmp', 'eq', a.form, Form.const(x))
                     p = q if p is None else ('or', p, q)
                 return c.I.mkbool(c.st, p)
-            return VBool(None)
+            return c.I.unknown_bool()
 
         @reg('std::cmp::Ord::cmp', 'std::cmp::PartialOrd::partial_cmp')
         def cmp(c):
@@ -348,7 +399,7 @@ class Models:
             b = M.deref(c.I, c.st, c.args[1])
             if isinstance(a, VInt) and isinstance(b, VInt):
                 return c.I.mkbool(c.st, ('cmp', 'eq', a.form, b.form))
-            return VBool(None)
+            return c.I.unknown_bool()
 
         @reg('std::cmp::PartialEq::ne')
         def pne(c):
@@ -357,7 +408,7 @@ class Models:
             if isinstance(a, VAdt) and isinstance(b, VAdt) and a.single() is not None and b.single() is not None:
                 if not a.variants[a.single()] and not b.variants[b.single()]:
                     return VBool(a.single() != b.single())
-            return VBool(None)
+            return c.I.unknown_bool()
 
         # ---- floats
         @reg('core::f64::<impl f64>::is_infinite')
@@ -381,7 +432,11 @@ class Models:
         @reg('std::f64::<impl f64>::round')
         def fround(c):
             v = c.args[0]
-            return VFloat(v.cls, ('round', v.expr))
+            import math
+            r = None
+            if v.rng is not None:
+                r = (float(math.floor(v.rng[0])), float(math.ceil(v.rng[1])))
+            return VFloat(v.cls, ('round', v.expr), r)
 
         # ---- Option / Result / Try
         @reg('std::ops::Try::branch')
@@ -547,7 +602,7 @@ class Models:
         def sempty(c):
             s = M.as_slice(c.I, c.st, c.args[0])
             if s is None:
-                return VBool(None)
+                return c.I.unknown_bool()
             return c.I.mkbool(c.st, ('cmp', 'eq', s.len, Form.const(0)))
 
         @reg('core::slice::<impl [T]>::first')
@@ -600,12 +655,34 @@ class Models:
         @reg('core::slice::<impl [T]>::binary_search')
         def bsearch(c):
             s = M.as_slice(c.I, c.st, c.args[0])
-            okty = M.variant_ty(c.dty, OK)
+            needle = M.deref(c.I, c.st, c.args[1])
             out = []
+            consts = None
+            if s.elem[0] == 'vals' and s.off.is_const() and s.len.is_const():
+                es = s.elem[1].elems[s.off.c:s.off.c + s.len.c]
+                if all(isinstance(e, VInt) and e.form.is_const() for e in es):
+                    consts = [e.form.c for e in es]
+                    if consts != sorted(consts) or len(set(consts)) != len(consts):
+                        consts = None
+            if consts is not None and isinstance(needle, VInt):
+                # exact model over a sorted constant table
+                n = len(consts)
+                for i, v in enumerate(consts):
+                    for s2 in c.I.assume(c.st.copy(), ('cmp', 'eq', needle.form, Form.const(v)), True):
+                        out.append((s2, VAdt(c.dty, {OK: (c.I.cint(i, 'usize'),)})))
+                for i in range(n + 1):
+                    p = None
+                    if i > 0:
+                        p = ('cmp', 'gt', needle.form, Form.const(consts[i - 1]))
+                    if i < n:
+                        q = ('cmp', 'lt', needle.form, Form.const(consts[i]))
+                        p = q if p is None else ('and', p, q)
+                    for s2 in c.I.assume(c.st.copy(), p, True):
+                        out.append((s2, VAdt(c.dty, {ERR: (c.I.cint(i, 'usize'),)})))
+                return out
             s2 = c.st.copy()
             i1 = c.I.fresh_int(s2, 'usize', 'bs_ok', 0)
-            r = c.I.assume(s2, ('cmp', 'lt', i1.form, s.len), True)
-            for s3 in r:
+            for s3 in c.I.assume(s2, ('cmp', 'lt', i1.form, s.len), True):
                 out.append((s3, VAdt(c.dty, {OK: (i1,)})))
             s4 = c.st.copy()
             i2 = c.I.fresh_int(s4, 'usize', 'bs_err', 0)
@@ -789,7 +866,7 @@ class Models:
             elif isinstance(r, VOpaque) and r.tag == 'rangeincl':
                 a, b = r.data
             else:
-                return VBool(None)
+                return c.I.unknown_bool()
             return c.I.mkbool(c.st, ('and', ('cmp', 'ge', x.form, a.form), ('cmp', 'le', x.form, b.form)))
 
         # ---- writers, formatting machinery, strings: total, no panic (see DESIGN Appendix B)
@@ -944,7 +1021,7 @@ class Models:
                         pass
                 out.append((s2, VBool((vi == SOME) == want_some)))
             return out
-        return VBool(None)
+        return c.I.unknown_bool()
 
     def iter_elem(self, I, st, sl, idx):
         e = sl.elem
